@@ -264,6 +264,11 @@ impl Instruction {
 
 impl Exec for Instruction {
     fn exec(&self, interpreter: &mut Interpreter) -> ExecResult {
+        #[cfg(feature = "verif")]
+        if !crate::verif::reentered() {
+            let result = self.exec(interpreter);
+            return crate::verif::observe(self, result);
+        }
         match_any! { self,
             Self::Variable(var) => Ok(var.clone()),
             Self::LocalVariable(ident, _) => interpreter
